@@ -605,6 +605,7 @@ fn cli_part(ctx: &Ctx, report: &mut Report) {
       cases.push(CliCase { p: pl, md5: shape == "file", shape: shape.into(), files: vec![("content".into(), (0..len).map(|i| (i / 4096) as u8).collect())], noise: vec![], links: false, progress: false, hardlink: false });
     }
   }
+  report.rule.push_str("; CLI cases also: other options of create riding along, files reached through symbolic links with --follow-symlinks, a hard link, the live progress display (--terminal --color always), piece lengths of 32 MiB and of 1.5 MiB-like values with content of several pieces from a file and from a pipe");
   report.correspondences.push("C01.cli: `imdl torrent create` output = spec (chunks of listed files, lengths, md5)".into());
   let results: Vec<(CliCase, Option<String>)> = cases.into_par_iter().map(|c| { let r = check_cli(ctx, &c); (c, r) }).collect();
   for (i, (c, r)) in results.into_iter().enumerate() {
